@@ -43,6 +43,7 @@ bool prop(Tape &t, Report &R) {
     }
     return true;
   }
+  HistoryScope hist(t, R);
   GenOpts o;
   o.polarisedPct = 60;
   if (R.thorough()) o.maxCells = 60, o.maxLevels = 16;
